@@ -5,6 +5,9 @@
 package verifmodels
 
 import (
+	"crypto/ecdsa"
+	"crypto/ed25519"
+	"io"
 	"crypto"
 	"golang.org/x/crypto/sha3"
 	"time"
@@ -576,4 +579,50 @@ func CryptoHashNew(h crypto.Hash) hash.Hash {
 		return SHA512New()
 	}
 	panic("crypto: requested hash function is unavailable")
+}
+
+// ---------------------------------------------------------------- ideal signature schemes
+
+// Ed25519: public key = PUB(seed); signature = SIGN(pub, msg) (64 bytes); Verify accepts
+// exactly SIGN(pub, msg).
+//
+//verif:intercept crypto/ed25519.NewKeyFromSeed
+func Ed25519NewKeyFromSeed(seed []byte) ed25519.PrivateKey {
+	if len(seed) != 32 {
+		panic("ed25519: bad seed length")
+	}
+	pub := verifrt.UF("ED25519PUB", 32, seed)
+	return ed25519.PrivateKey(append(append([]byte{}, seed...), pub...))
+}
+
+//verif:intercept crypto/ed25519.Sign
+func Ed25519Sign(priv ed25519.PrivateKey, message []byte) []byte {
+	if len(priv) != 64 {
+		panic("ed25519: bad private key length")
+	}
+	return verifrt.UF("ED25519SIG", 64, []byte(priv[32:]), message)
+}
+
+//verif:intercept crypto/ed25519.Verify
+func Ed25519Verify(pub ed25519.PublicKey, message, sig []byte) bool {
+	if len(pub) != 32 {
+		panic("ed25519: bad public key length")
+	}
+	if len(sig) != 64 {
+		return false
+	}
+	return verifrt.EqBytes(sig, verifrt.UF("ED25519SIG", 64, []byte(pub), message))
+}
+
+// ECDSA (ASN.1): the key objects are opaque; one key pair per harness. The signature over a
+// digest is an uninterpreted 8-byte string; VerifyASN1 accepts exactly it.
+//
+//verif:intercept crypto/ecdsa.SignASN1
+func ECDSASignASN1(rnd io.Reader, priv *ecdsa.PrivateKey, hash []byte) ([]byte, error) {
+	return verifrt.UF("ECDSASIG", 8, hash), nil
+}
+
+//verif:intercept crypto/ecdsa.VerifyASN1
+func ECDSAVerifyASN1(pub *ecdsa.PublicKey, hash, sig []byte) bool {
+	return verifrt.EqBytes(sig, verifrt.UF("ECDSASIG", 8, hash))
 }
